@@ -924,6 +924,16 @@ def shrink(desc):
 
 def signature(desc, res):
     pred = res.get("pred") or ""
+    if desc.get("kind") in ("dtype", "pad-dtype"):
+        # one report per cause (not per plate number / score); none of these classes is a listed known finding: they are VIOLATIONs
+        for mark, name in (("depends on another plate's dtype", "float64-plate-moves-with-a-neighbours-dtype"),
+                           ("handed over as float32 among", "float32-plate-not-scored-on-its-own-values"),
+                           ("is stored ROUNDED", "array-stored-rounded"),
+                           ("depends on the order of the arrays", "dense-dtype-depends-on-order"),
+                           ("none of the arrays' dtypes", "dense-dtype-is-no-array-dtype"),
+                           ("padding cells", "padding-cells-wrong")):
+            if mark in pred:
+                return "%s:%s" % (desc["kind"], name)
     return "%s:%s" % (desc.get("kind"), (pred or res.get("disagree") or "")[:40])
 
 
